@@ -169,7 +169,15 @@ impl ServerContext {
         let cancellations = self.cancellations.clone();
 
         tokio::spawn(async move {
-            let res = exec(cancel_token.clone()).await;
+            // Run the handler in its own task so that a panic inside it surfaces here as a
+            // JoinError instead of silently dropping the response: every request is answered.
+            let res = match tokio::spawn(exec(cancel_token.clone())).await {
+                Ok(res) => res,
+                Err(err) => {
+                    log::error!("request handler for {:?} failed: {}", req_id, err);
+                    None
+                }
+            };
             if cancel_token.is_cancelled() {
                 let response = Response::new_err(
                     req_id.clone(),
